@@ -717,8 +717,14 @@ def _slice_by_boundaries(ip, v, a, b):
 def getitem(ip, o, k):
     if isinstance(o, SEnum):
         return SEnum(o.idx, {i: getitem(ip, v, k) for i, v in o.table.items()})
+    if not isinstance(k, (slice, int)) and is_sym_int(k) and sym.concrete_int(k) is not None:
+        k = sym.concrete_int(k)
     if isinstance(k, slice):
         k = slice(ip.resolve(k.start), ip.resolve(k.stop), ip.resolve(k.step))
+        # bounds that simplify to numerals are numerals (keeps concrete data concrete)
+        k = slice(*[sym.concrete_int(x) if (x is not None and not isinstance(x, int) and is_sym_int(x)
+                                            and sym.concrete_int(x) is not None) else x
+                    for x in (k.start, k.stop, k.step)])
         if is_concrete(o) and all(is_concrete(x) for x in (k.start, k.stop, k.step)):
             return o[k]
         if isinstance(o, HByteArray):
@@ -810,6 +816,8 @@ def getitem(ip, o, k):
         ip.ctx.assume(idx == i)
         return SEnum(idx, table)
     if isinstance(o, ZList):
+        if o.items is not None and not isinstance(k, int) and sym.concrete_int(k) is not None:
+            k = sym.concrete_int(k)
         if o.items is not None and isinstance(k, int):
             try:
                 return o.items[k]
@@ -841,6 +849,8 @@ def setitem(ip, o, k, v):
             return
         raise Unsupported('store into python list with symbolic index')
     if isinstance(o, ZList):
+        if o.items is not None and not isinstance(k, int) and not isinstance(k, slice) and sym.concrete_int(k) is not None:
+            k = sym.concrete_int(k)
         if o.items is not None and isinstance(k, int):
             try:
                 o.items[k] = v
